@@ -443,16 +443,15 @@ def main():
                     guard += 1
                     tid += 1
                     recs, nm, desc = gen.pair(sc, tid)
-                    if nm != nm_want or desc.get('stale_header') or any(len(x[1]) == 0 for x in recs):
-                        continue       # one file set = one record count; headers must carry the cluster key; an empty read is
-                    pairs.append(recs)     # indistinguishable from EOF for FastqIterator only if the header were empty - keep it simple
+                    if nm != nm_want:
+                        continue       # one file set = one record count
+                    pairs.append(recs)
                     meta.append((tid, desc))
                 if not pairs:
                     continue
                 got = via_files(dmx, strategies[sc['strategy']], pairs, nm_want, variant, workdir)
                 for recs, (ptid, desc) in zip(pairs, meta):
-                    hdr = recs[0][0][1:].split(' ')[0].split(':')
-                    res = got.get((hdr[5], hdr[6]))
+                    res = got.get((str(1000 + ptid % 30000), str(1000 + ptid // 7)))     # cluster coordinates written by Gen.pair
                     e = event(ptid, sc['strategy'], sc['branch'], 0, recs, nm_want, desc, call, 'files:' + variant)
                     obs = {'acc': res is not None, 'raised': '', 'out': [], 'shape': ''}
                     if res is not None:
